@@ -135,6 +135,10 @@ pub fn price_world(rng: &mut Rng, coms: &[String], n_events: usize, day_span: u6
         let q: Dec = model::parse_num(qtys[rng.usize(qtys.len())]).unwrap();
         let mut t = Txn::new(d, &format!("price event {}", k));
         t.date_style = rng.below(4) as u8;
+        if rng.chance(1, 5) {
+            // an effective date some days before or after: prices are dated by the transaction date
+            t.effective = Some(d.plus_days(rng.below(2 * day_span.max(2)) as i64 - day_span.max(2) as i64));
+        }
         let num = |v: Dec| v.normalize().to_string();
         match rng.below(7) {
             0 | 1 => {
